@@ -136,16 +136,16 @@ Qed.
 
 (* ---------- "answers alike" is preserved by the machine ---------- *)
 Record fsim (a b : frame) : Prop := {
-  fs_self : f_self a = f_self b; fs_arg : f_arg a = f_arg b; fs_ctx : f_ctx a = f_ctx b;
+  fs_self : f_self a = f_self b; fs_arg : f_arg a = f_arg b; fs_vars : f_vars a = f_vars b; fs_ctx : f_ctx a = f_ctx b;
   fs_out : f_out a = f_out b; fs_st : eqmap (f_statics a) (f_statics b) }.
 
 Lemma eval_sim : forall a b e, fsim a b -> eval a e = eval b e.
 Proof.
-  intros a b e [S A C O M]. induction e; simpl; try reflexivity.
+  intros a b e [S A V C O M]. induction e; simpl; try reflexivity.
   - rewrite A. reflexivity.
   - rewrite S. reflexivity.
   - rewrite S. reflexivity.
-  - unfold static_lookup. rewrite C. destruct (static_name (f_ctx b) n); [rewrite M|]; reflexivity.
+  - unfold static_lookup. rewrite C. destruct (static_name (c_cur (f_ctx b)) n); [rewrite M|]; reflexivity.
   - rewrite IHe1, IHe2. reflexivity.
   - rewrite IHe1, IHe2. reflexivity.
   - rewrite IHe1, IHe2. reflexivity.
@@ -156,66 +156,9 @@ Proof. intros a b es H. induction es as [|e es IH]; simpl; [reflexivity|]. rewri
 Definition osim {X Y : Type} (R : X -> X -> Prop) (x y : X + Y) : Prop :=
   match x, y with inl a, inl b => R a b | inr e, inr e' => e = e' | _, _ => False end.
 Definition fsimz (x y : frame * Z) : Prop := fsim (fst x) (fst y) /\ snd x = snd y.
-(* two nested-call callbacks that answer alike on frames that answer alike *)
-Definition cbsim (c1 c2 : callback) : Prop := forall m z a b, fsim a b -> osim fsimz (c1 m z a) (c2 m z b).
-
-Lemma exec_stmt_sim : forall c1 c2 a b s, cbsim c1 c2 -> fsim a b -> osim fsim (exec_stmt c1 a s) (exec_stmt c2 b s).
-Proof.
-  intros c1 c2 a b s CB H. pose proof H as [S A C O M]. destruct s as [f e|n e|tag es|tag m e]; simpl.
-  - rewrite (eval_sim a b e H), O. destruct (eval b e) as [v|x]; simpl; [|reflexivity].
-    rewrite S. destruct (f_self b) as [fs|]; simpl; [|reflexivity].
-    destruct (alookup f fs); simpl; [|reflexivity]. destruct (int_ok v); simpl; [|reflexivity].
-    constructor; simpl; auto.
-  - rewrite (eval_sim a b e H), O. destruct (eval b e) as [v|x]; simpl; [|reflexivity].
-    rewrite C. destruct (static_name (f_ctx b) n) as [k|]; simpl; [|reflexivity].
-    rewrite M. destruct (alookup k (f_statics b)); simpl; [|reflexivity]. destruct (int_ok v); simpl; [|reflexivity].
-    constructor; simpl; auto. apply eqmap_aset; assumption.
-  - rewrite (eval_list_sim a b es H), O. destruct (eval_list b es); simpl; [|reflexivity].
-    constructor; simpl; auto.
-  - rewrite (eval_sim a b e H), O. destruct (eval b e) as [v|x]; simpl; [|reflexivity].
-    pose proof (CB m v a b H) as E.
-    destruct (c1 m v a) as [[a1 za]|xa]; destruct (c2 m v b) as [[b1 zb]|xb]; simpl in E; try contradiction; [|assumption].
-    destruct E as [[S1 A1 C1 O1 M1] E2]. simpl in *. subst zb. constructor; simpl; auto. rewrite O1. reflexivity.
-Qed.
-Lemma exec_body_sim : forall c1 c2 body a b, cbsim c1 c2 -> fsim a b -> osim fsim (exec_body c1 a body) (exec_body c2 b body).
-Proof.
-  intros c1 c2. induction body as [|s body IH]; simpl; intros a b CB H; [assumption|].
-  pose proof (exec_stmt_sim c1 c2 a b s CB H) as E.
-  destruct (exec_stmt c1 a s) as [a1|x]; destruct (exec_stmt c2 b s) as [b1|y]; simpl in E; try contradiction.
-  - apply IH; assumption.
-  - simpl. assumption.
-Qed.
-
-Lemma run_method_sim : forall c1 c2 fe self arg sa sb out, cbsim c1 c2 -> eqmap sa sb ->
-  osim fsimz (run_method c1 fe self arg sa out) (run_method c2 fe self arg sb out).
-Proof.
-  intros c1 c2 fe self arg sa sb out CB M. unfold run_method.
-  set (fa := {| f_self := self; f_arg := arg; f_statics := sa; f_ctx := Some (fe_iface fe, fe_type fe); f_out := out |}).
-  set (fb := {| f_self := self; f_arg := arg; f_statics := sb; f_ctx := Some (fe_iface fe, fe_type fe); f_out := out |}).
-  assert (fsim fa fb) as FS by (constructor; simpl; auto).
-  pose proof (exec_body_sim c1 c2 (m_body (fe_meth fe)) fa fb CB FS) as E.
-  destruct (exec_body c1 fa (m_body (fe_meth fe))) as [fa'|xa]; destruct (exec_body c2 fb (m_body (fe_meth fe))) as [fb'|xb]; simpl in E; try contradiction.
-  - rewrite (eval_sim fa' fb' _ E). destruct (eval fb' (m_ret (fe_meth fe))) as [z|x]; simpl.
-    + split; [assumption|reflexivity].
-    + rewrite (fs_out _ _ E). reflexivity.
-  - assumption.
-Qed.
-
-Lemma no_nested_sim : cbsim no_nested no_nested.
-Proof. intros m z a b H. simpl. rewrite (fs_out _ _ H). reflexivity. Qed.
 
 Definition funcs_alike (f1 f2 : list (string * fentry)) : Prop :=
   forall t n, alookup (method_key t n) f1 = alookup (method_key t n) f2.
-Lemma nested_self_sim : forall f1 f2 t, funcs_alike f1 f2 -> cbsim (nested_self f1 t) (nested_self f2 t).
-Proof.
-  intros f1 f2 t FA m z a b H. pose proof H as [S A C O M]. unfold nested_self. rewrite FA.
-  destruct (alookup (method_key t m) f2) as [fe|]; simpl; [|rewrite O; reflexivity].
-  rewrite S, O.
-  pose proof (run_method_sim no_nested no_nested fe (f_self b) z (f_statics a) (f_statics b) (f_out b) no_nested_sim M) as E.
-  destruct (run_method no_nested fe (f_self b) z (f_statics a) (f_out b)) as [[a1 za]|xa];
-    destruct (run_method no_nested fe (f_self b) z (f_statics b) (f_out b)) as [[b1 zb]|xb]; simpl in E; try contradiction; [|assumption].
-  destruct E as [[S1 A1 C1 O1 M1] E2]. simpl in *. subst zb. split; [|reflexivity]. constructor; simpl; auto.
-Qed.
 
 Record ssim (a b : state) : Prop := {
   ss_funcs : funcs_alike (s_funcs a) (s_funcs b);
@@ -227,24 +170,27 @@ Definition rsim {X : Type} (R : X -> X -> Prop) (x y : res X) : Prop :=
   match x, y with Ok a, Ok b => R a b | Fail o e, Fail o' e' => o = o' /\ e = e' | _, _ => False end.
 Definition ssimz (x y : state * Z) : Prop := ssim (fst x) (fst y) /\ snd x = snd y.
 
-Lemma invoke_sim : forall a b l v t self fe arg, ssim a b ->
-  rsim ssimz (invoke a l v t self fe arg) (invoke b l v t self fe arg).
+(* two ways of running a registered method / making a call that answer alike on states that answer alike *)
+Definition runsim (r1 r2 : runner) : Prop := forall fe t self arg a b, ssim a b -> osim fsimz (r1 fe t self arg a) (r2 fe t self arg b).
+Definition callsim (c1 c2 : caller) : Prop := forall a b rc m arg, ssim a b -> rsim ssimz (c1 a rc m arg) (c2 b rc m arg).
+
+Lemma invoke_g_sim : forall r1 r2 a b l v t self fe arg, runsim r1 r2 -> ssim a b ->
+  rsim ssimz (invoke_g r1 a l v t self fe arg) (invoke_g r2 b l v t self fe arg).
 Proof.
-  intros a b l v t self fe arg H. pose proof H as [F I S V C O]. unfold invoke. rewrite O.
-  pose proof (run_method_sim _ _ fe self arg (s_statics a) (s_statics b) (s_out b) (nested_self_sim _ _ t F) S) as E.
-  destruct (run_method (nested_self (s_funcs a) t) fe self arg (s_statics a) (s_out b)) as [[fa' za]|[oa xa]];
-    destruct (run_method (nested_self (s_funcs b) t) fe self arg (s_statics b) (s_out b)) as [[fb' zb]|[ob xb]]; simpl in E; try contradiction.
-  - destruct E as [[S' A' C' O' M'] E2]. simpl in *. subst zb. split; [|reflexivity]. constructor; simpl; auto.
-    rewrite V, S'. reflexivity.
+  intros r1 r2 a b l v t self fe arg RS H. pose proof H as [F I S V C O]. unfold invoke_g.
+  pose proof (RS fe t self arg a b H) as E.
+  destruct (r1 fe t self arg a) as [[fa' za]|[oa xa]]; destruct (r2 fe t self arg b) as [[fb' zb]|[ob xb]]; simpl in E; try contradiction.
+  - destruct E as [[S' A' V' C' O' M'] E2]. simpl in *. subst zb. split; [|reflexivity]. constructor; simpl; auto.
+    + rewrite V, S'. reflexivity.
+    + rewrite C'. reflexivity.
   - inversion E; subst. split; reflexivity.
 Qed.
-
-Lemma call_sim : forall a b rc m arg, ssim a b -> rsim ssimz (call a rc m arg) (call b rc m arg).
+Lemma call_g_sim : forall r1 r2, runsim r1 r2 -> callsim (call_g r1) (call_g r2).
 Proof.
-  intros a b rc m arg H. pose proof H as [F I S V C O]. unfold call. rewrite V.
+  intros r1 r2 RS a b rc m arg H. pose proof H as [F I S V C O]. unfold call_g. rewrite V.
   destruct (receiver (s_vars b) rc) as [[[[l v] t] self]|]; simpl; [|auto].
   rewrite F. destruct (alookup (method_key t m) (s_funcs b)) as [fe|]; simpl; [|auto].
-  apply invoke_sim; assumption.
+  apply invoke_g_sim; assumption.
 Qed.
 
 Lemma set_vars_sim : forall a b vs, ssim a b -> ssim (set_vars a vs) (set_vars b vs).
@@ -264,22 +210,23 @@ Proof.
   - rewrite <- V. apply set_vars_sim; assumption.
 Qed.
 
-Lemma run_calls_sim : forall cs a b tag rc d, ssim a b -> rsim ssim (run_calls a tag rc d cs) (run_calls b tag rc d cs).
+Lemma run_calls_g_sim : forall c1 c2, callsim c1 c2 -> forall cs a b tag rc d, ssim a b ->
+  rsim ssim (run_calls_g c1 a tag rc d cs) (run_calls_g c2 b tag rc d cs).
 Proof.
-  induction cs as [|[m c] cs IH]; simpl; intros a b tag rc d H; [assumption|].
-  pose proof (call_sim a b rc m (d + c)%Z H) as E.
-  destruct (call a rc m (d + c)%Z) as [[a1 za]|oa xa]; destruct (call b rc m (d + c)%Z) as [[b1 zb]|ob xb]; simpl in E; try contradiction.
+  intros c1 c2 CS. induction cs as [|[m c] cs IH]; simpl; intros a b tag rc d H; [assumption|].
+  pose proof (CS a b rc m (d + c)%Z H) as E.
+  destruct (c1 a rc m (d + c)%Z) as [[a1 za]|oa xa]; destruct (c2 b rc m (d + c)%Z) as [[b1 zb]|ob xb]; simpl in E; try contradiction.
   - destruct E as [E1 E2]. simpl in E1, E2. subst zb. apply IH. apply emit_sim; assumption.
   - assumption.
 Qed.
 
-Lemma step_sim : forall hs a b o, ssim a b -> rsim ssim (step hs a o) (step hs b o).
+Lemma step_g_sim : forall c1 c2 hs, callsim c1 c2 -> forall a b o, ssim a b -> rsim ssim (step_g c1 hs a o) (step_g c2 hs b o).
 Proof.
-  intros hs a b o H. pose proof H as [F I S V C O]. destruct o; cbn [step].
+  intros c1 c2 hs CS a b o H. pose proof H as [F I S V C O]. destruct o; cbn [step_g].
   - apply bind_sim; assumption.
   - rewrite V, O. destruct (alookup x (s_vars b)); simpl; auto. rewrite <- V. apply set_vars_sim; assumption.
-  - pose proof (call_sim a b r m arg H) as E.
-    destruct (call a r m arg) as [[a1 za]|oa xa]; destruct (call b r m arg) as [[b1 zb]|ob xb]; simpl in E; try contradiction; simpl.
+  - pose proof (CS a b r m arg H) as E.
+    destruct (c1 a r m arg) as [[a1 za]|oa xa]; destruct (c2 b r m arg) as [[b1 zb]|ob xb]; simpl in E; try contradiction; simpl.
     + destruct E as [E1 E2]. simpl in E1, E2. subst zb. apply emit_sim; assumption.
     + assumption.
   - destruct (find (fun hh => String.eqb (h_name hh) h) hs) as [hh|]; simpl; [|auto].
@@ -299,9 +246,9 @@ Proof.
       - rewrite V, O. destruct (alookup src (s_vars b)) as [[| | |]|]; simpl; auto. rewrite <- V. apply set_vars_sim; assumption. }
     match goal with |- rsim ssim (match ?X with _ => _ end) (match ?Y with _ => _ end) =>
       destruct X as [a1|oa xa]; destruct Y as [b1|ob xb]; simpl in EN; try contradiction; simpl; [|assumption] end.
-    pose proof (run_calls_sim (h_calls hh) a1 b1 h (RVar (h_param hh)) d EN) as RC.
-    destruct (run_calls a1 h (RVar (h_param hh)) d (h_calls hh)) as [a2|oa xa];
-      destruct (run_calls b1 h (RVar (h_param hh)) d (h_calls hh)) as [b2|ob xb]; simpl in RC; try contradiction; simpl; [|assumption].
+    pose proof (run_calls_g_sim c1 c2 CS (h_calls hh) a1 b1 h (RVar (h_param hh)) d EN) as RC.
+    destruct (run_calls_g c1 a1 h (RVar (h_param hh)) d (h_calls hh)) as [a2|oa xa];
+      destruct (run_calls_g c2 b1 h (RVar (h_param hh)) d (h_calls hh)) as [b2|ob xb]; simpl in RC; try contradiction; simpl; [|assumption].
     rewrite (ss_vars _ _ RC). apply set_vars_sim; assumption.
   - rewrite V, O. destruct (alookup x (s_vars b)) as [[t [fs|v]| | |]|]; simpl; auto.
     + destruct (alookup f fs); simpl; auto. rewrite <- V. apply set_vars_sim; assumption.
@@ -311,11 +258,82 @@ Proof.
   - rewrite V, O. destruct (alookup x (s_vars b)) as [[| | |]|]; simpl; auto; apply emit_sim; assumption.
 Qed.
 
-Lemma run_ops_sim : forall hs os a b, ssim a b -> rsim ssim (run_ops hs a os) (run_ops hs b os).
+Lemma st_of_sim : forall ga gb a b, ssim ga gb -> fsim a b -> ssim (st_of ga a) (st_of gb b).
+Proof. intros ga gb a b [F I S V C O] [S' A' V' C' O' M']. constructor; simpl; auto. Qed.
+
+Lemma exec_stmt_sim : forall r1 r2 hs ga gb t, runsim r1 r2 -> ssim ga gb -> forall s a b, fsim a b ->
+  osim fsim (exec_stmt r1 hs ga t a s) (exec_stmt r2 hs gb t b s).
+Proof.
+  intros r1 r2 hs ga gb t RS G. induction s as [f e|n e|tag es|tag m e|o|ge s IH]; intros a b H; pose proof H as [S A V C O M]; cbn [exec_stmt].
+  - rewrite (eval_sim a b e H), O. destruct (eval b e) as [v|x]; simpl; [|reflexivity].
+    rewrite S. destruct (f_self b) as [fs|]; simpl; [|reflexivity].
+    destruct (alookup f fs); simpl; [|reflexivity]. destruct (int_ok v); simpl; [|reflexivity].
+    constructor; simpl; auto.
+  - rewrite (eval_sim a b e H), O. destruct (eval b e) as [v|x]; simpl; [|reflexivity].
+    rewrite C. destruct (static_name (c_cur (f_ctx b)) n) as [k|]; simpl; [|reflexivity].
+    rewrite M. destruct (alookup k (f_statics b)); simpl; [|reflexivity]. destruct (int_ok v); simpl; [|reflexivity].
+    constructor; simpl; auto. apply eqmap_aset; assumption.
+  - rewrite (eval_list_sim a b es H), O. destruct (eval_list b es); simpl; [|reflexivity].
+    constructor; simpl; auto.
+  - rewrite (eval_sim a b e H), O. destruct (eval b e) as [v|x]; simpl; [|reflexivity].
+    unfold nested_self_g. rewrite (ss_funcs _ _ G).
+    destruct (alookup (method_key t m) (s_funcs gb)) as [fe|]; simpl; [|rewrite O; reflexivity].
+    rewrite S.
+    pose proof (RS fe t (f_self b) v (st_of ga a) (st_of gb b) (st_of_sim _ _ _ _ G H)) as E.
+    destruct (r1 fe t (f_self b) v (st_of ga a)) as [[a1 za]|xa]; destruct (r2 fe t (f_self b) v (st_of gb b)) as [[b1 zb]|xb];
+      simpl in E; try contradiction; [|assumption].
+    destruct E as [[S1 A1 V1 C1 O1 M1] E2]. simpl in *. subst zb. constructor; simpl; auto.
+    + rewrite S1. reflexivity.
+    + rewrite C1. reflexivity.
+    + rewrite O1. reflexivity.
+  - pose proof (step_g_sim _ _ hs (call_g_sim _ _ RS) (st_of ga a) (st_of gb b) o (st_of_sim _ _ _ _ G H)) as E.
+    destruct (step_g (call_g r1) hs (st_of ga a) o) as [a1|oa xa]; destruct (step_g (call_g r2) hs (st_of gb b) o) as [b1|ob xb];
+      simpl in E; try contradiction; simpl.
+    + destruct E as [F1 I1 S1 V1 C1 O1]. constructor; simpl; auto.
+    + destruct E; subst; reflexivity.
+  - rewrite (eval_sim a b ge H), O. destruct (eval b ge) as [v|x]; simpl; [|reflexivity].
+    destruct (0 <? v)%Z; [apply IH; assumption|simpl; assumption].
+Qed.
+Lemma exec_body_sim : forall r1 r2 hs ga gb t, runsim r1 r2 -> ssim ga gb -> forall body a b, fsim a b ->
+  osim fsim (exec_body r1 hs ga t a body) (exec_body r2 hs gb t b body).
+Proof.
+  intros r1 r2 hs ga gb t RS G. induction body as [|s body IH]; simpl; intros a b H; [assumption|].
+  pose proof (exec_stmt_sim r1 r2 hs ga gb t RS G s a b H) as E.
+  destruct (exec_stmt r1 hs ga t a s) as [a1|x]; destruct (exec_stmt r2 hs gb t b s) as [b1|y]; simpl in E; try contradiction.
+  - apply IH; assumption.
+  - simpl. assumption.
+Qed.
+
+Lemma run_method_g_sim : forall r1 r2 hs, runsim r1 r2 -> runsim (run_method_g r1 hs) (run_method_g r2 hs).
+Proof.
+  intros r1 r2 hs RS fe t self arg a b H. pose proof H as [F I S V C O]. unfold run_method_g.
+  assert (fsim (frame0 fe self arg a) (frame0 fe self arg b)) as FS.
+  { constructor; simpl; auto. rewrite C. reflexivity. }
+  pose proof (exec_body_sim r1 r2 hs a b t RS H (m_body (fe_meth fe)) _ _ FS) as E.
+  destruct (exec_body r1 hs a t (frame0 fe self arg a) (m_body (fe_meth fe))) as [fa'|xa];
+    destruct (exec_body r2 hs b t (frame0 fe self arg b) (m_body (fe_meth fe))) as [fb'|xb]; simpl in E; try contradiction.
+  - destruct (m_void (fe_meth fe)); simpl.
+    + split; [assumption|reflexivity].
+    + rewrite (eval_sim fa' fb' _ E). destruct (eval fb' (m_ret (fe_meth fe))) as [z|x]; simpl.
+      * split; [assumption|reflexivity].
+      * rewrite (fs_out _ _ E). reflexivity.
+  - assumption.
+Qed.
+Lemma run_n_sim : forall n hs, runsim (run_n n hs) (run_n n hs).
+Proof.
+  induction n as [|n IH]; intros hs.
+  - intros fe t self arg a b H. simpl. rewrite (ss_out _ _ H). reflexivity.
+  - simpl. apply run_method_g_sim. apply IH.
+Qed.
+
+Lemma step_sim : forall n hs a b o, ssim a b -> rsim ssim (step n hs a o) (step n hs b o).
+Proof. intros n hs. apply step_g_sim. apply call_g_sim. apply run_n_sim. Qed.
+
+Lemma run_ops_sim : forall n hs os a b, ssim a b -> rsim ssim (run_ops n hs a os) (run_ops n hs b os).
 Proof.
   induction os as [|o os IH]; simpl; intros a b H; [assumption|].
-  pose proof (step_sim hs a b o H) as E.
-  destruct (step hs a o) as [a1|oa xa]; destruct (step hs b o) as [b1|ob xb]; simpl in E; try contradiction; simpl.
+  pose proof (step_sim n hs a b o H) as E.
+  destruct (step n hs a o) as [a1|oa xa]; destruct (step n hs b o) as [b1|ob xb]; simpl in E; try contradiction; simpl.
   - apply IH; assumption.
   - assumption.
 Qed.
@@ -326,21 +344,26 @@ Definition with_impls (p : program) (ds : list impl_def) : program :=
 
 Theorem program_order_independent_l : forall p ds' r, Permutation (p_impls p) ds' -> wf_impls (p_impls p) ->
   parse_check (p_ifaces p) [] (p_impls p) = None -> register_all empty_registry (p_impls p) = inl r ->
-  run_program (with_impls p ds') = run_program p.
+  forall n, run_program_n n (with_impls p ds') = run_program_n n p.
 Proof.
-  intros p ds' r P W PC R. unfold run_program, with_impls; simpl.
+  intros p ds' r P W PC R n. unfold run_program_n, with_impls; simpl.
   destruct (parse_check_perm _ _ _ P PC) as [PC' ND]. rewrite PC, PC', R.
   destruct (registration_succeeds_any_order _ _ _ P R) as [r' R']. rewrite R'.
   assert (wf_impls ds') as W' by (eapply wf_impls_perm; eauto).
   destruct (register_all_impls _ _ W R) as [I S]. destruct (register_all_impls _ _ W' R') as [I' S'].
   assert (ssim (init_state r' (p_vars p)) (init_state r (p_vars p))) as SS.
   { constructor; simpl; auto.
-    - intros t n. eapply dispatch_order_independent_l; eauto.
+    - intros t m. eapply dispatch_order_independent_l; eauto.
     - intros. rewrite I, I'. symmetry. apply impl_exists_perm; assumption.
     - rewrite S, S'. apply eqmap_sym. apply (all_statics_perm _ _ P W ND). apply eqmap_refl. }
-  pose proof (run_ops_sim (p_helpers p) (p_ops p) _ _ SS) as E.
-  destruct (run_ops (p_helpers p) (init_state r' (p_vars p)) (p_ops p)) as [a|oa xa];
-    destruct (run_ops (p_helpers p) (init_state r (p_vars p)) (p_ops p)) as [b|ob xb]; simpl in E; try contradiction.
+  pose proof (run_ops_sim n (p_helpers p) (p_ops p) _ _ SS) as E.
+  destruct (run_ops n (p_helpers p) (init_state r' (p_vars p)) (p_ops p)) as [a|oa xa];
+    destruct (run_ops n (p_helpers p) (init_state r (p_vars p)) (p_ops p)) as [b|ob xb]; simpl in E; try contradiction.
   - rewrite (ss_out _ _ E). reflexivity.
   - destruct E; subst; reflexivity.
 Qed.
+
+Lemma program_order_independent_both_l : forall p ds' r, Permutation (p_impls p) ds' -> wf_impls (p_impls p) ->
+  parse_check (p_ifaces p) [] (p_impls p) = None -> register_all empty_registry (p_impls p) = inl r ->
+  (forall n, run_program_n n (with_impls p ds') = run_program_n n p) /\ run_program (with_impls p ds') = run_program p.
+Proof. intros p ds' r P W PC R. split; [|unfold run_program]; intros; eapply program_order_independent_l; eauto. Qed.
